@@ -200,6 +200,7 @@ pub fn check_reruns(c: &RerunCase) -> Verdict {
                 return Verdict::Fail(format!("the deliberately failing run before run #{} ({}, {}) exited 0", n + 1, cb.cli(), if n % 2 == 0 { "--verify on a chain without the genesis block" } else { "truncated blk file" }));
             }
         }
+        let folder_before = vpmodel::run::read_dir_files(&dump);
         let mut o = RunOpts::new(built.coin, *cb);
         o.end = end;
         // every run after the first happens at another date: the wall clock is shifted (LD_PRELOAD shim) to within
@@ -230,6 +231,18 @@ pub fn check_reruns(c: &RerunCase) -> Verdict {
         }
         if all_files.get("notes.txt").map(|v| v.as_slice()) != Some(b"unrelated".as_slice()) {
             return Verdict::Fail("an unrelated file of the dump folder was changed".into());
+        }
+        // apart from this callback's own final-named and temporary files the folder is what it was before the run:
+        // temporary files and results of OTHER callbacks are neither removed, renamed nor rewritten
+        let own_tmp: std::collections::BTreeSet<String> = cb.stems().iter().map(|s| format!("{}.csv.tmp", s)).collect();
+        let names: std::collections::BTreeSet<&String> = folder_before.keys().chain(all_files.keys()).collect();
+        for name in names {
+            if mine.contains(name) || own_tmp.contains(name) || name.starts_with('.') {
+                continue;
+            }
+            if folder_before.get(name) != all_files.get(name) {
+                return Verdict::Fail(format!("run #{} ({}) {} the file {} of the dump folder, which does not belong to it", n, cb.cli(), match (folder_before.contains_key(name), all_files.contains_key(name)) { (true, false) => "removed", (false, true) => "created", _ => "changed" }, name));
+            }
         }
         let after_files = digest_dir(&w.data());
         if after_files != before_files {
@@ -357,12 +370,18 @@ fn run(eng: &Engine, a: &Args) {
         }).boxed()
     }, check_two_dirs);
     eng.explore("threads", scaled(nt, a), move || thread_strategy(tier), check_threads);
+    // a block of 64 transactions whose 41st carries a 4.5 MB script (per-worker buffers that are reused across the
+    // transactions of one split must not carry anything over): all thread settings, csvdump and unspentcsvdump
+    let mut scripts: Vec<Vec<u8>> = (0..64usize).map(|i| { let mut s = vec![0x76, 0xa9, 0x14]; s.extend([0x40 + i as u8; 20]); s.extend([0x88, 0xac]); s }).collect();
+    scripts[40] = { let mut s = vec![0x6a]; s.extend((0..4_500_000u32).map(|k| (k % 239) as u8)); s };
+    let big = vpmodel::spec::chain_from_scripts(vpmodel::chain::Coin::Bitcoin, &scripts, &[1500, 7], 1, 64, 0, 1_400_000_000);
+    eng.enumerate("threads-large-transaction", vec![ThreadCase { chain: big, second: Callback::UnspentCsvDump }], check_threads);
     eng.explore("reruns", scaled(nr, a), move || rerun_strategy(tier), check_reruns);
 }
 
 fn replay(part: &str, case: serde_json::Value) -> Option<Verdict> {
     match part {
-        "threads" => Some(check_threads(&serde_json::from_value(case).ok()?)),
+        "threads" | "threads-large-transaction" => Some(check_threads(&serde_json::from_value(case).ok()?)),
         "reruns" => Some(check_reruns(&serde_json::from_value(case).ok()?)),
         "same-directory-repeated" => Some(check_repeat(&serde_json::from_value(case).ok()?)),
         "two-directories-one-user" => Some(check_two_dirs(&serde_json::from_value(case).ok()?)),
